@@ -31,7 +31,9 @@ def spell(items, grouped):
     return " ".join(out)
 
 
-def concretize(c):
+def concretize(c, tag=False):
+    """tag=True: arguments carry the counterpart they are dedicated to, so that a leak across counterparts is visible (C06)"""
+    sfx = (lambda cp: {"-": "0", "A": "a", "B": "b"}.get(cp, "z")) if tag else (lambda cp: "")
     a = []
     for t in c["traits"]:
         e = "" if t["err"] == "-" else ", Er"
@@ -39,7 +41,8 @@ def concretize(c):
         a.append((t.get("own", False), f'{t["n"]}({t["cp"]}{h}{e})'))
     for t in c["tattrs"]:
         n = t["n"]
-        arg = {"ghosts": "gx: {gh()}", "where_clause": "T: Clone", "child_parents": "p: P", "parent": "", "literal": "1", "pattern": "_", "type_hint": "as ()",
+        x = sfx(t["cp"])
+        arg = {"ghosts": f"gx{x}: {{gh{x}()}}", "where_clause": f"T: Clone{x}", "child_parents": f"p: P{x}", "parent": "", "literal": "1", "pattern": "_", "type_hint": "as ()",
                "children": "p: P", "ghost": "{gh()}", "child": "p", "bogus": "x"}[n]
         body = f'{n}({cpfx(t["cp"])}{arg})' if arg or t["cp"] != "-" else n
         a.append(sp(t["own"], body))
@@ -50,21 +53,21 @@ def concretize(c):
         for x in m:
             n, cp = x["n"], x["cp"]
             if n == "map":
-                body = f'map({cpfx(cp)}{"R" if enum else "r"}{i})'
+                body = f'map({cpfx(cp)}{"R" if enum else "r"}{i}{sfx(cp)})'
             elif n == "ghost_nd":
                 body = f"ghost({cp})" if cp != "-" else "ghost"
             elif n == "ghost_d":
-                body = f"ghost({cpfx(cp)}{{gh()}})"
+                body = f"ghost({cpfx(cp)}{{gh{sfx(cp)}()}})"
             elif n == "child":
                 body = f"child({cpfx(cp)}p)"
             elif n == "parent0":
                 body = f"parent({cp})" if cp != "-" else "parent"
             elif n == "literal":
-                body = f"literal({cpfx(cp)}{i})"
+                body = f"literal({cpfx(cp)}{i}{ {'0': '0', 'a': '1', 'b': '2', 'z': '3', '': ''}[sfx(cp)] })"
             elif n == "pattern":
-                body = f"pattern({cpfx(cp)}_)"
+                body = f"pattern({cpfx(cp)}_)" if not tag else f"pattern({cpfx(cp)}{ {'0': '10..=19', 'a': '20..=29', 'b': '30..=39', 'z': '40'}[sfx(cp)] })"
             elif n == "type_hint":
-                body = f"type_hint({cpfx(cp)}as ())"
+                body = f"type_hint({cpfx(cp)}as ())" if not tag else f"type_hint({cpfx(cp)}{ {'0': 'as ()', 'a': 'as {}', 'b': 'as Unit', 'z': 'as ()'}[sfx(cp)] })"
             elif n == "where_clause":
                 body = "where_clause(T: Clone)"
             elif n in ("children", "child_parents"):
